@@ -736,7 +736,8 @@ pub async fn step(env: &mut Env, line: &str) -> Answer {
             settle().await;
             ans(r.into())
         }
-        "stats" => {
+        "stats" | "stats1" => {
+            let single = toks[0] == "stats1";
             let name = s!(1);
             let (_, sm, _) = env.deltio.verif_parts();
             let r = match SubscriptionName::try_parse(&name) {
@@ -746,8 +747,12 @@ pub async fn step(env: &mut Env, line: &str) -> Answer {
                     Ok(sub) => {
                         // GetStats is a mailbox turn: after it the actor takes whatever has expired by
                         // now. Ask twice and report the second answer, i.e. the state after that.
-                        let _ = tokio::time::timeout(HANG_LIMIT, sub.get_stats()).await;
-                        settle().await;
+                        // (`stats1`, used by the concurrent `probe`, asks once: the probe must see the
+                        // state before its own request makes the actor pass a wake-up on.)
+                        if !single {
+                            let _ = tokio::time::timeout(HANG_LIMIT, sub.get_stats()).await;
+                            settle().await;
+                        }
                         match tokio::time::timeout(HANG_LIMIT, sub.get_stats()).await {
                         Err(_) => "HANG".to_string(),
                         Ok(Err(_)) => "closed".to_string(),
